@@ -33,7 +33,9 @@ Fixpoint rs_chomp_rev (r : bytes) (acc : Z) : bytes * Z :=
     else if (x =? CR)%N then rs_chomp_rev r1 1%Z
     else (r, acc)
   end.
-Definition rs_chomp (s : bytes) : bytes * Z := let '(r, k) := rs_chomp_rev (rev s) 0%Z in (rev r, k).
+(* linear-time reversal (List.rev is quadratic, which matters for 100 KB folded headers); rs_rev l = rev l *)
+Definition rs_rev (l : bytes) : bytes := rev_append l [].
+Definition rs_chomp (s : bytes) : bytes * Z := let '(r, k) := rs_chomp_rev (rs_rev s) 0%Z in (rs_rev r, k).
 
 (* ---- htp_is_line_empty / htp_is_line_whitespace ---- *)
 Definition rs_is_line_empty (d : bytes) : bool :=
